@@ -44,4 +44,10 @@ def build():
     u.exec_const(U, 'STANDARD_NO_PAD', indent='', ensures=[
         Clause('B2_the_unpadded_engine_does_not_pad_and_accepts_padded_and_unpadded_input',
                'STANDARD_NO_PAD.standard_alphabet && !STANDARD_NO_PAD.config.encode_padding && STANDARD_NO_PAD.config.decode_padding_mode == DecodePaddingMode::Indifferent')])
+    # tonic-web keeps its own copy of the padding engine (grpc-web-text bodies: C16 / C17)
+    u._emit('pub mod web {\nuse super::*;')
+    u.exec_const('tonic-web/src/lib.rs', 'STANDARD', indent='', props=['C16', 'C17'], ensures=[
+        Clause('B3_the_grpc_web_text_engine_pads_and_accepts_padded_and_unpadded_input',
+               'STANDARD.standard_alphabet && STANDARD.config.encode_padding && STANDARD.config.decode_padding_mode == DecodePaddingMode::Indifferent', ['C16', 'C17'])])
+    u._emit('}')
     return u
